@@ -1793,6 +1793,16 @@ func readNextHTTPCommand(packet []byte, argsIn [][]byte, msg *Message, wr io.Wri
 func readNextCommand(packet []byte, argsIn [][]byte, msg *Message, wr io.Writer) (
 	complete bool, args [][]byte, kind redcon.Kind, leftover []byte, err error,
 ) {
+	defer func() {
+		if v := recover(); v != nil {
+			// The protocol parser slices past the packet for some malformed
+			// length prefixes such as "*1\r\n$-2\r\n". Answer with a
+			// protocol error and close this connection instead of letting
+			// the panic take the whole server down.
+			complete, args, kind, leftover = false, nil, redcon.Redis, nil
+			err = errors.New("Protocol error: invalid bulk length")
+		}
+	}()
 	if packet[0] == 'G' || packet[0] == 'P' || packet[0] == 'O' {
 		// could be an HTTP request
 		var line []byte
